@@ -5,7 +5,7 @@ From TL Require Import Gen.IgnoreGen Model.Ignore Model.IgnoreSpec Actual.Ignore
 From TL Require Import Model.DryBase Model.DryPipe Gen.DryGen Model.Dry Actual.DryActual.
 From TL Require Import Model.SrpTypes Gen.SrpGen Model.SrpSpec Model.Srp Actual.SrpActual.
 From TL Require Import Gen.EditGen Model.EditRun Actual.EditActual.
-From TL Require Proofs.EditDry Proofs.EditSrp Proofs.EditFacts.
+From TL Require Import Proofs.EditDry Proofs.EditSrp Proofs.EditFacts.
 
 (* q_ts_loc_raw_span: a blank line inside a TypeScript class adds one to its reported lines of code *)
 Theorem C13_ts_loc_insert_refuted : exists lines c k x,
@@ -45,4 +45,4 @@ Proof. vm_compute. split; reflexivity. Qed.
 Theorem C13_actual_follows_source :
   e_bom_kept edit_actual = negb (String.eqb file_read_encoding "utf-8-sig") /\
   q_splitlines_unicode (e_ign edit_actual) = forallb (String.eqb "splitlines") ignore_line_splitters.
-Proof. exact EditFacts.actual_follows_source. Qed.
+Proof. split; reflexivity. Qed.
